@@ -1,0 +1,139 @@
+//! Verification hooks. Only compiled with cargo feature `verif-hooks`,
+//! which is off by default; nothing here is part of the public API.
+//!
+//! - feature mask: lets a harness hide SIMD features from the runtime
+//!   detection done by `DefaultEngine`.
+//! - trace: counts executions of every ISA-specific entry point.
+//! - digest: helper for hashing the concrete state of working spaces.
+
+use std::sync::atomic::{AtomicU32, AtomicU64, Ordering};
+
+// ======================================================================
+// FEATURE MASK
+
+/// Bit of `avx2` in the feature mask.
+pub const FEATURE_AVX2: u32 = 1;
+/// Bit of `ssse3` in the feature mask.
+pub const FEATURE_SSSE3: u32 = 2;
+/// Bit of `neon` in the feature mask.
+pub const FEATURE_NEON: u32 = 4;
+
+static FEATURE_MASK: AtomicU32 = AtomicU32::new(u32::MAX);
+
+/// Sets which SIMD features runtime detection is allowed to report.
+pub fn set_feature_mask(mask: u32) {
+    FEATURE_MASK.store(mask, Ordering::SeqCst);
+}
+
+/// Returns current feature mask.
+pub fn feature_mask() -> u32 {
+    FEATURE_MASK.load(Ordering::SeqCst)
+}
+
+/// Returns `true` if given feature is not masked out.
+pub fn feature_allowed(name: &str) -> bool {
+    let bit = match name {
+        "avx2" => FEATURE_AVX2,
+        "ssse3" => FEATURE_SSSE3,
+        "neon" => FEATURE_NEON,
+        _ => return true,
+    };
+    feature_mask() & bit != 0
+}
+
+// ======================================================================
+// TRACE
+
+/// Portable code (`NoSimd` and the provided `Engine::eval_poly`).
+pub const ISA_PORTABLE: usize = 0;
+/// Code compiled with `target_feature = "ssse3"`.
+pub const ISA_SSSE3: usize = 1;
+/// Code compiled with `target_feature = "avx2"`.
+pub const ISA_AVX2: usize = 2;
+/// Code compiled with `target_feature = "neon"`.
+pub const ISA_NEON: usize = 3;
+/// Number of ISAs.
+pub const ISA_COUNT: usize = 4;
+
+/// `Engine::mul`
+pub const PRIM_MUL: usize = 0;
+/// `Engine::fft`
+pub const PRIM_FFT: usize = 1;
+/// `Engine::ifft`
+pub const PRIM_IFFT: usize = 2;
+/// `Engine::eval_poly`
+pub const PRIM_EVAL_POLY: usize = 3;
+/// Number of primitives.
+pub const PRIM_COUNT: usize = 4;
+
+#[allow(clippy::declare_interior_mutable_const)]
+const ZERO: AtomicU64 = AtomicU64::new(0);
+static TRACE: [AtomicU64; ISA_COUNT * PRIM_COUNT] = [ZERO; ISA_COUNT * PRIM_COUNT];
+
+/// Records one execution of primitive `prim` compiled for `isa`.
+#[inline(always)]
+pub fn trace(isa: usize, prim: usize) {
+    TRACE[isa * PRIM_COUNT + prim].fetch_add(1, Ordering::Relaxed);
+}
+
+/// Returns `[isa][prim]` execution counts since last [`trace_reset`].
+pub fn trace_snapshot() -> [[u64; PRIM_COUNT]; ISA_COUNT] {
+    let mut out = [[0; PRIM_COUNT]; ISA_COUNT];
+    for (isa, row) in out.iter_mut().enumerate() {
+        for (prim, cell) in row.iter_mut().enumerate() {
+            *cell = TRACE[isa * PRIM_COUNT + prim].load(Ordering::SeqCst);
+        }
+    }
+    out
+}
+
+/// Zeroes all execution counts.
+pub fn trace_reset() {
+    for counter in &TRACE {
+        counter.store(0, Ordering::SeqCst);
+    }
+}
+
+// ======================================================================
+// DIGEST
+
+/// FNV-1a based 64-bit hasher used for state digests.
+pub struct Digest(u64);
+
+impl Digest {
+    /// Creates new digest.
+    pub fn new() -> Self {
+        Self(0xcbf2_9ce4_8422_2325)
+    }
+
+    /// Mixes in one `usize`.
+    pub fn usize(&mut self, x: usize) {
+        self.bytes(&(x as u64).to_le_bytes());
+    }
+
+    /// Mixes in bytes.
+    pub fn bytes(&mut self, xs: &[u8]) {
+        // 8 bytes at a time, digests are taken of whole working spaces.
+        let mut chunks = xs.chunks_exact(8);
+        for chunk in &mut chunks {
+            let word = u64::from_le_bytes(chunk.try_into().unwrap());
+            self.0 = (self.0 ^ word).wrapping_mul(0x0000_0100_0000_01b3);
+            self.0 ^= self.0 >> 29;
+        }
+        for x in chunks.remainder() {
+            self.0 = (self.0 ^ u64::from(*x)).wrapping_mul(0x0000_0100_0000_01b3);
+        }
+        self.0 = (self.0 ^ xs.len() as u64).wrapping_mul(0x0000_0100_0000_01b3);
+    }
+
+    /// Returns the digest.
+    pub fn finish(&self) -> u64 {
+        self.0
+    }
+}
+
+impl Default for Digest {
+    fn default() -> Self {
+        Self::new()
+    }
+}
